@@ -167,7 +167,7 @@ pub fn run(ctx: &mut Ctx) -> Result<(), Violation> {
         .to_string();
     ctx.assume("API orderings have distinct names and distinct ids (the property's domain)");
 
-    let cases = ctx.tier.pick(60_000, 5_000_000);
+    let cases = ctx.tier.cases(60_000, 5_000_000);
     let r = par_random(ctx, "api", cases, 300, |tape, st| {
         let mut t = Tape::new(tape);
         let (text, idents) = match c10::gen_formula_text(&mut t, 9) {
@@ -201,7 +201,7 @@ pub fn run(ctx: &mut Ctx) -> Result<(), Violation> {
     });
     ctx.stage("api-orderings", false, r)?;
 
-    let cases = ctx.tier.pick(600, 30_000);
+    let cases = ctx.tier.cases(600, 30_000);
     let r = par_random(ctx, "cli", cases, 300, |tape, st| {
         let mut t = Tape::new(tape);
         let (text, idents) = match c10::gen_formula_text(&mut t, 5) {
